@@ -91,7 +91,7 @@ func c05TaskPorts(rs []mesos.Resource) []c05PR {
 // never neither; a pinned task is only launched on the agent it is pinned to.
 //verif:entry HarnessResourceOffers unwind=24 preempt=0 timers=never reach=two-on-one-offer,one-each stub=github.com/AliceO2Group/Control/common/utils.TimeTrack,encoding/json.Marshal,encoding/json.MarshalIndent,(github.com/mesos/mesos-go/api/v1/lib.Resources).String replace=(*github.com/AliceO2Group/Control/core/task.schedulerState).CopyExecutorInfo=>c05CopyExecutor nosched=github.com/AliceO2Group/Control/core/the.mu steps=8000000
 func HarnessResourceOffers() {
-	c05Offers(false)
+	c05Offers(0)
 }
 
 // The same event with the accent on ports: offer 1 has two port ranges [a, a+la] and [b, b+lb] anywhere (a, b
@@ -99,10 +99,19 @@ func HarnessResourceOffers() {
 // 1 CPU and 256 MB and are pinned to flp1.
 //verif:entry HarnessOfferPorts unwind=24 preempt=0 timers=never reach=two-on-one-offer,none stub=github.com/AliceO2Group/Control/common/utils.TimeTrack,encoding/json.Marshal,encoding/json.MarshalIndent,(github.com/mesos/mesos-go/api/v1/lib.Resources).String replace=(*github.com/AliceO2Group/Control/core/task.schedulerState).CopyExecutorInfo=>c05CopyExecutor nosched=github.com/AliceO2Group/Control/core/the.mu steps=8000000
 func HarnessOfferPorts() {
-	c05Offers(true)
+	c05Offers(1)
 }
 
-func c05Offers(portsMode bool) {
+// The same event with the accent on channels: each class has no inbound channel, a TCP one or an IPC one, with
+// or without a global alias; both tasks want 1 CPU and 256 MB and are pinned to flp1. Every deployed task is told to
+// bind one endpoint per inbound channel, and the endpoint is also registered under the channel's global alias.
+//verif:entry HarnessOfferChannels unwind=24 preempt=0 timers=never reach=two-on-one-offer stub=github.com/AliceO2Group/Control/common/utils.TimeTrack,encoding/json.Marshal,encoding/json.MarshalIndent,(github.com/mesos/mesos-go/api/v1/lib.Resources).String replace=(*github.com/AliceO2Group/Control/core/task.schedulerState).CopyExecutorInfo=>c05CopyExecutor nosched=github.com/AliceO2Group/Control/core/the.mu steps=8000000
+func HarnessOfferChannels() {
+	c05Offers(2)
+}
+
+func c05Offers(mode int) {
+	portsMode, channelsMode := mode == 1, mode == 2
 	template.VerifHook_Fields_Execute = func(f template.Fields, confSvc template.ConfigurationService, parentPath string, varStack map[string]string, objStack map[string]interface{}, baseConfigStack map[string]string, cache map[string]texttemplate.Template, repo repos.IRepo) error {
 		return nil
 	}
@@ -145,6 +154,8 @@ func c05Offers(portsMode bool) {
 	type want struct {
 		cpu, mem float64
 		tcp      bool
+		ipc      bool
+		alias    string
 		fmq      bool
 		static   bool
 		staticAt uint64
@@ -156,7 +167,7 @@ func c05Offers(portsMode bool) {
 	for i := 0; i < 2; i++ {
 		n := []string{"k1", "k2"}[i]
 		x := want{cpu: 1, mem: 256, pinned: true, tcp: vrt.Bool("inbound.tcp"), fmq: vrt.Bool("fairmq")}
-		if !portsMode {
+		if mode == 0 {
 			x.cpu, x.mem, x.pinned = []float64{1, 3}[vrt.IntRange("cpu", 0, 1)], []float64{256, 768}[vrt.IntRange("mem", 0, 1)], vrt.Bool("pinned")
 		}
 		class := &taskclass.Class{Defaults: gera.MakeMap[string, string](), Vars: gera.MakeMap[string, string](), Properties: gera.MakeMap[string, string]()}
@@ -175,6 +186,13 @@ func c05Offers(portsMode bool) {
 		}
 		if x.tcp {
 			class.Bind = []channel.Inbound{{Channel: channel.Channel{Name: "in", Type: channel.PULL, Transport: channel.DEFAULT}, Addressing: channel.TCP}}
+		} else if channelsMode && vrt.Bool("inbound.ipc") {
+			x.ipc = true
+			class.Bind = []channel.Inbound{{Channel: channel.Channel{Name: "in", Type: channel.PULL, Transport: channel.DEFAULT}, Addressing: channel.IPC}}
+		}
+		if len(class.Bind) == 1 && channelsMode && vrt.Bool("inbound.global.alias") {
+			x.alias = "alias-" + n
+			class.Bind[0].Global = x.alias
 		}
 		w.m.classes.UpdateClass(n, class)
 		role := &ftRole{path: "root." + n, envId: env, traits: Traits{Critical: true, Timeout: "10s"}}
@@ -195,6 +213,26 @@ func c05Offers(portsMode bool) {
 
 	err := state.resourceOffers(nil)(context.Background(), &scheduler.Event{Type: scheduler.Event_OFFERS, Offers: &scheduler.Event_Offers{Offers: offers}})
 	vrt.Assert(err == nil, "offers-event-is-handled")
+
+	// what every deployed task was told to bind: one endpoint per inbound channel, also reachable under the
+	// channel's global alias when it has one (tcp or ipc alike)
+	select {
+	case out := <-outcome:
+		for t, d := range out.deployed {
+			x := wants[0]
+			if d.TaskClassName == "k2" {
+				x = wants[1]
+			}
+			ep, has := t.localBindMap["in"]
+			vrt.Assert(has == (x.tcp || x.ipc), "one-bound-endpoint-per-inbound-channel")
+			if x.alias != "" {
+				ga, ok := t.localBindMap["::"+x.alias]
+				vrt.Assert(ok && channel.EndpointEquals(ga, ep), "global-alias-names-the-endpoint-of-its-channel")
+			}
+		}
+	default:
+		vrt.Assert(false, "deployment-request-gets-its-outcome")
+	}
 
 	launchedOn := map[string]int{}
 	total := 0
